@@ -175,16 +175,27 @@ def _merge_stats(dst, src):
             dst[k] = dst.get(k, 0) + v
 
 
-def epoch(prop, batch_seed, w, first_index, n_runs, deadline):
-    """n_runs consecutive runs in this (freshly forked) process."""
+HD_EVERY = 25      # every 25th run of an epoch is re-executed alone in a pristine process
+
+
+def _comparable(log):
+    """Outcome log reduced to what must not depend on what ran earlier in the process."""
+    return [{k: v for k, v in o.items() if k != 'heap'} for o in log]
+
+
+def epoch(prop, batch_seed, w, first_index, n_runs, deadline, prior_upto=None):
+    """n_runs consecutive runs in this (freshly forked) process.  With prior_upto=i the epoch
+    is only re-generated up to run i and the op lists of the runs before it are returned."""
     mod = load(prop)
     stats = {}
     res = {'runs': 0, 'steps': 0, 'nontrivial': set(), 'alld': set(), 'violations': [],
            'samples': [], 'first_seed': None, 'last_seed': None, 'fault_free_runs': 0,
-           'fault_runs': 0, 'more_violations': 0}
+           'fault_runs': 0, 'more_violations': 0, 'hd_samples': []}
     prior = []          # op lists of the earlier runs of this epoch
     for i in range(first_index, first_index + n_runs):
-        if (i & 7) == 0 and time.monotonic() > deadline:
+        if prior_upto is not None and i >= prior_upto:
+            return {'prior': prior}
+        if prior_upto is None and (i & 7) == 0 and time.monotonic() > deadline:
             break
         seed = core.run_seed(batch_seed, mod.SALT, w, i)
         r = mod.generate_and_run(seed, stats)
@@ -212,9 +223,47 @@ def epoch(prop, batch_seed, w, first_index, n_runs, deadline):
                                           'prior': [list(p) for p in prior]})
             else:
                 res['more_violations'] += 1
+        elif (i - first_index) % HD_EVERY == HD_EVERY - 1 and len(r['ops']) > 0 and \
+                not any('CallTimeout' in str(o.get('r')) for o in r['log']):
+            res['hd_samples'].append({'seed': seed, 'w': w, 'i': i, 'cfg': r['cfg'], 'ops': r['ops'],
+                                      'log': _comparable(r['log'])})
         prior.append(r['ops'])
     res['stats'] = stats
     return res
+
+
+def _first_difference(log_a, log_b):
+    for k, (a, b) in enumerate(zip(log_a, log_b)):
+        if a != b:
+            return k, a, b
+    if len(log_a) != len(log_b):
+        k = min(len(log_a), len(log_b))
+        return k, (log_a[k] if k < len(log_a) else None), (log_b[k] if k < len(log_b) else None)
+    return None
+
+
+def check_history_dependence(prop, batch_seed, w, first_index, n, samples):
+    """Re-execute sampled runs alone in pristine processes; a run whose outcomes differ from
+    what it did inside the epoch depended on state the library kept from earlier runs."""
+    found = []
+    for smp in samples:
+        log2, vj = in_fork(_exec_child, prop, smp['ops'], None)
+        if vj is not None:
+            continue        # (cannot happen for a run that was clean in the epoch; be conservative)
+        d = _first_difference(smp['log'], _comparable(log2))
+        if d is None:
+            continue
+        k, in_epoch, alone = d
+        pr = in_fork(epoch, prop, batch_seed, w, first_index, n, 0, smp['i'], timeout=900)
+        rec = smp['ops'][k] if k < len(smp['ops']) else {}
+        found.append({'kind': 'history_dependence', 'seed': smp['seed'], 'w': w, 'i': smp['i'],
+                      'cfg': smp['cfg'], 'ops': smp['ops'], 'prior': pr['prior'],
+                      'violation': {'property': prop, 'oracle': 'history_dependence', 'step': k,
+                                    'op': rec.get('key', rec.get('op', '?')),
+                                    'detail': {'after_earlier_runs_of_the_process': in_epoch,
+                                               'alone_in_a_pristine_process': alone}}})
+        break               # one per epoch is enough
+    return found
 
 
 def worker(prop, batch_seed, w, n_runs, budget_s):
@@ -232,6 +281,10 @@ def worker(prop, batch_seed, w, n_runs, budget_s):
             n = min(per, n_runs - i)
             r = in_fork(epoch, prop, batch_seed, w, i, n, deadline, timeout=budget_s + 200)
             out['epochs'] += 1
+            out['hd_checked'] = out.get('hd_checked', 0) + len(r['hd_samples'])
+            if len(out['violations']) < 8:
+                r['violations'].extend(check_history_dependence(prop, batch_seed, w, i, n,
+                                                                 r['hd_samples']))
             for k in ('runs', 'steps', 'fault_free_runs', 'fault_runs', 'more_violations'):
                 out[k] += r[k]
             out['nontrivial'] |= r['nontrivial']
@@ -313,6 +366,20 @@ def replay_file(path, quiet=False):
         rp = json.load(f)
     mod = load(rp['property'])
     want = rp['violation']
+    if want['oracle'] == 'history_dependence':
+        start = want['detail']['target_start']
+        d = _hd_difference(rp['property'], rp['ops'][:start], rp['ops'][start:])
+        ok = d is not None and start + d[0] == want['step']
+        if not quiet:
+            if ok:
+                print('REPRODUCED property=%s oracle=history_dependence step=%d op=%s' %
+                      (rp['property'], want['step'], want['op']))
+                print(json.dumps({'after_earlier_calls_in_the_process': d[1],
+                                  'alone_in_a_pristine_process': d[2]}, sort_keys=True, default=str)[:2000])
+            else:
+                print('NOT-REPRODUCED property=%s: the calls after the last reset behave the same '
+                      'with and without the earlier ones' % rp['property'])
+        return ok, (want if ok else None)
     log, v = execute_history(mod, rp['ops'], want=(want['property'], want['oracle'], want['op']))
     ok = (v is not None and v.oracle == want['oracle'] and v.op == want['op']
           and v.step == want['step'])
@@ -380,6 +447,56 @@ def confirm_and_minimise(prop, mod, v):
         small = small[1:]
         vj['step'] -= 1
     return small, vj, note
+
+
+def _hd_difference(prop, prior_flat, target):
+    """Execute target after prior_flat (+reset) and alone, each in a pristine process.
+    Returns (index into target, outcome after the prior runs, outcome alone) or None."""
+    hist = list(prior_flat)
+    if hist and hist[-1].get('op') != 'reset':
+        hist.append(dict(RESET))
+    start = len(hist)
+    hist.extend(target)
+    log_h, _ = pristine_execute(prop, hist, ('-', '-', '-'))
+    log_a, _ = pristine_execute(prop, target, None)
+    return _first_difference(_comparable(log_h[start:]), _comparable(log_a))
+
+
+def confirm_and_minimise_hd(prop, mod, v):
+    """History dependence: the run v['ops'] behaves differently after v['prior'] than alone."""
+    target = list(v['ops'])
+
+    def flat(runs):
+        out = []
+        for p in runs:
+            out.extend(p)
+            out.append(dict(RESET))
+        return out
+
+    if _hd_difference(prop, flat(v['prior']), target) is None:
+        raise core.HarnessError('history dependence of run seed %d did not reproduce from the %d '
+                                'earlier runs of its epoch' % (v['seed'], len(v['prior'])))
+    runs = minimise.ddmin(list(v['prior']), lambda rs: _hd_difference(prop, flat(rs), target) is not None)
+    steps = minimise.ddmin(flat(runs), lambda st: _hd_difference(prop, st, target) is not None)
+    # drop the tail of the target that is not needed to see the difference
+    d = _hd_difference(prop, steps, target)
+    if d is None:
+        raise core.HarnessError('minimised history of run seed %d lost the difference' % v['seed'])
+    target = target[:d[0] + 1]
+    d = _hd_difference(prop, steps, target)
+    if d is None:
+        raise core.HarnessError('truncated target of run seed %d lost the difference' % v['seed'])
+    if steps and steps[-1].get('op') != 'reset':
+        steps = steps + [dict(RESET)]
+    ops = steps + target
+    rec = target[d[0]]
+    vj = {'property': prop, 'oracle': 'history_dependence', 'step': len(steps) + d[0],
+          'op': rec.get('key', rec.get('op', '?')),
+          'detail': {'after_earlier_calls_in_the_process': d[1], 'alone_in_a_pristine_process': d[2],
+                     'target_start': len(steps)}}
+    note = ('history dependence: the calls after the last reset give a different outcome when the '
+            'calls before it have run in the same process; nothing is reported by any single call')
+    return ops, vj, note
 
 
 # --------------------------------------------------------------------------- #
@@ -450,7 +567,10 @@ def run_batch(prop, tier, batch_seed, workers, runs_per_worker, budget_s):
             continue
         done_targets.add(tkey)
         n_min += 1
-        small, vj, note = confirm_and_minimise(prop, mod, v)
+        if v.get('kind') == 'history_dependence':
+            small, vj, note = confirm_and_minimise_hd(prop, mod, v)
+        else:
+            small, vj, note = confirm_and_minimise(prop, mod, v)
         hit = [e for e in known if finding_matches(e, prop, vj, small)]
         if hit:
             known_hit.setdefault(hit[0]['id'], hit[0])
@@ -488,6 +608,7 @@ def run_batch(prop, tier, batch_seed, workers, runs_per_worker, budget_s):
                        'stubbed': [],
                        'seams': mod.SEAMS},
         'violating_runs_seen': len(viols) + more,
+        'runs_re_executed_alone_in_a_pristine_process': sum(r.get('hd_checked', 0) for r in results),
         'violation_classes': [list(k) for k in sorted(seen_classes)],
         'known_findings_hit': sorted(known_hit),
         'exhaustive': False,
